@@ -3,6 +3,7 @@ kernel models, and sanitizer + guard/poison/live-counter runs of the real code."
 import os
 import pv
 from engines import tensor_common as tc
+from engines import c10 as c10mod
 from engines import tensor_gen as g
 
 
@@ -30,6 +31,9 @@ def run(ctx):
     if not ctx.quick():
         tc.run_stream(ctx, "asan-eigen", g.ALL_OPS, n, backend="eigen", variant="asan")
     big_alloc_probe(ctx)
+    # live-buffer accounting around forward/backward/destruction on the guard-zone device (plain and asan)
+    c10mod.run_fault(ctx, "plain", 14 if ctx.quick() else 70)
+    c10mod.run_fault(ctx, "asan", 7 if ctx.quick() else 70)
     tc.optional_part(ctx, "frontend", "run_part", 3000 if ctx.quick() else 40000)
     for part in (("progcheck", "run_mode", ("grad", 300 if ctx.quick() else 5000), {"variant": "asan"}),):
         try:
